@@ -1674,6 +1674,65 @@ impl TransactionalMemory {
         self.page_size.try_into().unwrap()
     }
 
+    // Verification hook: a read-only copy of the allocator, header and unpersisted state, taken
+    // under this type's own locks
+    #[cfg(redb_verif)]
+    pub(crate) fn verif_snapshot(&self) -> crate::verif::MemSnapshot {
+        let root = |h: Option<BtreeHeader>| {
+            h.map(|h| (u64::from_le_bytes(h.root.to_le_bytes()), h.checksum, h.length))
+        };
+        let pn = |p: &PageNumber| u64::from_le_bytes(p.to_le_bytes());
+        let unpersisted = self.unpersisted.lock().unwrap();
+        let state = self.state.lock().unwrap();
+        let layout = state.header.layout();
+        let (regions, tracker) = match state.allocators.as_ref() {
+            Some(a) => (
+                a.region_allocators.iter().map(BuddyAllocator::to_vec).collect(),
+                a.region_tracker.to_vec(),
+            ),
+            None => (vec![], vec![]),
+        };
+        let latest = state.latest_slot();
+        let primary = state.header.primary_slot();
+        crate::verif::MemSnapshot {
+            page_size: self.page_size,
+            region_header_pages: layout.full_region_layout().get_header_pages(),
+            region_max_pages: layout.full_region_layout().num_pages(),
+            num_regions: layout.num_regions(),
+            layout_len: layout.len(),
+            allocators_loaded: state.allocators.is_some(),
+            regions,
+            region_tracker: tracker,
+            current_data_root: root(latest.user_root),
+            current_system_root: root(latest.system_root),
+            current_transaction_id: latest.transaction_id.raw_id(),
+            durable_data_root: root(primary.user_root),
+            durable_system_root: root(primary.system_root),
+            durable_transaction_id: primary.transaction_id.raw_id(),
+            read_from_secondary: state.read_from_secondary,
+            needs_repair: self.needs_repair(),
+            unpersisted_pages: unpersisted.pages.iter().map(pn).collect(),
+            unpersisted_allocations: unpersisted
+                .allocations
+                .iter()
+                .map(|(t, ps)| (t.raw_id(), ps.iter().map(pn).collect()))
+                .collect(),
+            unpersisted_data_freed: unpersisted
+                .data_freed
+                .iter()
+                .map(|(t, ps)| (t.raw_id(), ps.iter().map(pn).collect()))
+                .collect(),
+            post_commit_allocations: unpersisted.post_commit_allocations.iter().map(pn).collect(),
+        }
+    }
+
+    // Verification hook: the bytes of one page as a transaction would see it
+    #[cfg(redb_verif)]
+    pub(crate) fn verif_read_page(&self, page: u64) -> Result<Vec<u8>> {
+        let page = self.get_page(PageNumber::from_le_bytes(page.to_le_bytes()), PageHint::None)?;
+        Ok(page.memory().to_vec())
+    }
+
     pub(crate) fn close(&self) -> Result {
         let shutdown_result = self.flush_shutdown_header();
         // The backend's close() contract guarantees it is called exactly once, so it must be
